@@ -1,4 +1,5 @@
 pub mod entropy;
+pub mod isolation;
 pub mod envelope;
 pub mod queues;
 pub mod runloop;
@@ -18,6 +19,8 @@ pub struct Ctx {
     pub names: Vec<String>,
     pub tier: String,
     pub cur_index: u64,
+    /// engine "profile": run the perturbed twins of every subject first
+    pub twins: bool,
     pub extra: std::collections::BTreeMap<String, u64>,
 }
 
@@ -32,6 +35,7 @@ impl Ctx {
             names,
             tier: args.str("tier", "quick"),
             cur_index: 0,
+            twins: args.u64("twins", 0) == 1,
             extra: Default::default(),
         }
     }
@@ -41,6 +45,8 @@ impl Ctx {
 }
 
 pub struct OneResult {
+    /// per-run line for cross-build comparison (engine "profile")
+    pub trace_line: Option<String>,
     pub violations: Vec<(Violation, Value)>,
     pub stats: RunStats,
     pub counts: Vec<u64>,
@@ -71,6 +77,7 @@ pub fn run_one(engine: &str, seed: u64, ctx: &mut Ctx) -> OneResult {
                 }
             }
             OneResult {
+                trace_line: None,
                 violations,
                 sample: serde_json::json!({"program": sc.program_text, "mode": sc.mode, "via_parser": sc.via_parser,
                     "state_items": sc.state.total_items(), "host_ops": sc.hosts.len(),
@@ -84,6 +91,7 @@ pub fn run_one(engine: &str, seed: u64, ctx: &mut Ctx) -> OneResult {
             let (vs, stats, sample) = queues::execute(&sc, &mut ctx.iset, &ctx.names);
             let scv = if vs.is_empty() { Value::Null } else { serde_json::to_value(&sc).unwrap() };
             OneResult {
+                trace_line: None,
                 violations: vs.into_iter().map(|v| (v, scv.clone())).collect(),
                 stats,
                 counts: vec![],
@@ -96,6 +104,7 @@ pub fn run_one(engine: &str, seed: u64, ctx: &mut Ctx) -> OneResult {
             let ex = entropy::execute(&sc, &ctx.names);
             let scv = if ex.violations.is_empty() { Value::Null } else { serde_json::to_value(&sc).unwrap() };
             OneResult {
+                trace_line: None,
                 violations: ex.violations.into_iter().map(|v| (v, scv.clone())).collect(),
                 sample: serde_json::json!({"case": sc.case, "streams": sc.streams, "p_extreme": sc.p_extreme, "p_repeat": sc.p_repeat}),
                 stats: ex.stats,
@@ -111,6 +120,7 @@ pub fn run_one(engine: &str, seed: u64, ctx: &mut Ctx) -> OneResult {
             let e = ctx.extra.entry("worst_cost_over_bound_permille".into()).or_insert(0);
             *e = (*e).max(r.worst_ratio_milli);
             OneResult {
+                trace_line: None,
                 violations: r.violations.into_iter().map(|v| (v, scv.clone())).collect(),
                 sample: serde_json::json!({"instruction": sc.instr, "int_layout": sc.int_layout, "float_layout": sc.float_layout, "magnitudes": sc.magnitudes}),
                 stats: r.stats,
@@ -122,9 +132,33 @@ pub fn run_one(engine: &str, seed: u64, ctx: &mut Ctx) -> OneResult {
             let r = envelope::execute_growth(&sc, &mut ctx.iset, &ctx.names);
             let scv = if r.violations.is_empty() { Value::Null } else { serde_json::to_value(&sc).unwrap() };
             OneResult {
+                trace_line: None,
                 violations: r.violations.into_iter().map(|v| (v, scv.clone())).collect(),
                 sample: serde_json::json!({"program": sc.program_text.chars().take(300).collect::<String>()}),
                 stats: r.stats,
+                counts: vec![],
+            }
+        }
+        "isolation" => {
+            let sc = isolation::generate(seed, &ctx.names);
+            let ex = isolation::execute(&sc, &mut ctx.iset, &ctx.names);
+            let scv = if ex.violations.is_empty() { Value::Null } else { serde_json::to_value(&sc).unwrap() };
+            OneResult {
+                trace_line: None,
+                violations: ex.violations.into_iter().map(|v| (v, scv.clone())).collect(),
+                sample: serde_json::json!({"subject": sc.program_text.chars().take(240).collect::<String>(), "copies": sc.copies, "noise_tasks": sc.noise.len(),
+                    "warmup_steps": sc.warmup, "shared_instruction_set": sc.share_iset, "run_with_intrusions": sc.run_with_intrusions}),
+                stats: ex.stats,
+                counts: vec![],
+            }
+        }
+        "profile" => {
+            let (stats, line) = isolation::profile_run(seed, &mut ctx.iset, &ctx.names, ctx.twins);
+            OneResult {
+                trace_line: Some(line.clone()),
+                violations: vec![],
+                sample: serde_json::json!({"line": line}),
+                stats,
                 counts: vec![],
             }
         }
@@ -134,6 +168,7 @@ pub fn run_one(engine: &str, seed: u64, ctx: &mut Ctx) -> OneResult {
             let (vs, stats, sample) = queues::execute(&sc, &mut ctx.iset, &ctx.names);
             let scv = if vs.is_empty() { Value::Null } else { serde_json::to_value(&sc).unwrap() };
             OneResult {
+                trace_line: None,
                 violations: vs.into_iter().map(|v| (v, scv.clone())).collect(),
                 stats,
                 counts: vec![],
@@ -144,6 +179,7 @@ pub fn run_one(engine: &str, seed: u64, ctx: &mut Ctx) -> OneResult {
             let sweep = if ctx.tier == "thorough" { 256 } else { 64 };
             let (stats, found, sample) = runloop::run_program(seed, &mut ctx.iset, &ctx.names, sweep);
             OneResult {
+                trace_line: None,
                 violations: found
                     .into_iter()
                     .map(|(v, sc)| (v, serde_json::to_value(&sc).unwrap()))
@@ -175,6 +211,10 @@ pub fn replay_one(engine: &str, scenario: &Value, ctx: &mut Ctx) -> Vec<Violatio
             let sc: entropy::EntropySc = serde_json::from_value(scenario.clone()).expect("entropy scenario");
             entropy::execute(&sc, &ctx.names).violations
         }
+        "isolation" => {
+            let sc: isolation::IsoSc = serde_json::from_value(scenario.clone()).expect("isolation scenario");
+            isolation::execute(&sc, &mut ctx.iset, &ctx.names).violations
+        }
         "envelope-op" => {
             let sc: envelope::OpSc = serde_json::from_value(scenario.clone()).expect("envelope-op scenario");
             envelope::execute_op(&sc, &mut ctx.plain).violations
@@ -199,6 +239,7 @@ pub fn scenario_of(engine: &str, seed: u64, ctx: &mut Ctx) -> Value {
             serde_json::to_value(envelope::generate_op(seed, &instr, ctx.tier == "thorough")).unwrap()
         }
         "envelope-growth" => serde_json::to_value(envelope::generate_growth(seed, &ctx.names)).unwrap(),
+        "isolation" => serde_json::to_value(isolation::generate(seed, &ctx.names)).unwrap(),
         "entropy-c12" => serde_json::to_value(entropy::generate(seed, "C12", ctx.tier == "thorough")).unwrap(),
         "entropy-c13" => serde_json::to_value(entropy::generate(seed, "C13", ctx.tier == "thorough")).unwrap(),
         _ => panic!("unknown engine {}", engine),
